@@ -222,3 +222,16 @@ Proof.
     apply Bool.not_true_is_false. intro He. apply existsb_exists in He as [x [Hx Hxc]].
     apply N.eqb_eq in Hxc. subst x. rewrite forallb_forall in Hlt. specialize (Hlt c Hx). apply N.ltb_lt in Hlt. lia.
 Qed.
+
+(* an extensible constraint contributes no permitted alphabet (X.691 10.3.10), whatever it contains *)
+Lemma try_new_extensible fuel t s : try_new fuel t {| cset := s; cext := true |} = Ok None.
+Proof. unfold try_new. destruct (negb (known_multiplier t)); reflexivity. Qed.
+
+Theorem extensible_alone_no_annotation fuel t s :
+  alphabet_annotation fuel t [{| cset := s; cext := true |}] = Ok None.
+Proof. unfold alphabet_annotation. cbn [collect]. rewrite try_new_extensible. reflexivity. Qed.
+
+(* ... and next to other constraints it changes nothing *)
+Theorem extensible_ignored fuel t s cs :
+  collect fuel t ({| cset := s; cext := true |} :: cs) = collect fuel t cs.
+Proof. cbn [collect]. rewrite try_new_extensible. cbn [bind]. destruct (collect fuel t cs); reflexivity. Qed.
